@@ -28,6 +28,7 @@ import (
 
 	"github.com/labstack/echo/v4"
 	"github.com/lestrrat-go/jwx/v2/jwa"
+	"github.com/lestrrat-go/jwx/v2/jwk"
 	"github.com/lestrrat-go/jwx/v2/jws"
 	ssi "github.com/nuts-foundation/go-did"
 	"github.com/nuts-foundation/go-did/did"
@@ -51,8 +52,10 @@ const (
 	hostWallet  = "wallet.x03.example"
 	hostAWallet = "awallet.x03.example"
 	hostRogue   = "rogue.x03.example"
-	nominalTTL  = 15 * time.Minute // life time of offers, access tokens and c_nonces the API announces (expires_in = 900)
 )
+
+// nominalTTL is the life time the code itself declares for issuance flows, access tokens and c_nonces (and announces as expires_in).
+const nominalTTL = issuer.TokenTTL
 
 // party is one DID with its signing key.
 type party struct {
@@ -342,9 +345,14 @@ func (n *network) do(from string, req *http.Request) (*http.Response, error) {
 // ------------------------------------------------------------------------------------------ attacker's pen
 
 // signJWT signs with the attacker's key under an arbitrary kid (a kid of another DID = forged signature).
-func (w *world) signJWT(kid string, typ string, claims map[string]interface{}) string {
+func (w *world) signJWT(kid string, typ string, claims map[string]interface{}, embedKey bool) string {
 	hdr := jws.NewHeaders()
 	_ = hdr.Set("kid", kid)
+	if embedKey {
+		if k, err := jwk.FromRaw(w.A.pub); err == nil {
+			_ = hdr.Set("jwk", k)
+		}
+	}
 	if typ != "" {
 		_ = hdr.Set("typ", typ)
 	}
